@@ -170,9 +170,12 @@ def gen_bytes(rng, maxlen=40):
     return rng.bytes(n)
 
 
-def gen_key(rng, used):
+def gen_key(rng, used, anykind=False):
     for _ in range(20):
         k = ("s", bytes(97 + rng.below(26) for _ in range(1 + rng.below(6))))
+        if anykind and rng.chance(1, 3):
+            # keys of untyped maps need not be strings
+            k = rng.choice([rng.below(200) - 100, gen_int(rng)])
         if vtext(k) not in used:
             used.add(vtext(k))
             return k
@@ -204,7 +207,24 @@ def gen_value(rng, depth=3, wide=False):
         return [gen_value(rng, depth - 1) for _ in range(n)]
     n = rng.choice([0, 1, 2, 3, 15, 16] if wide else [0, 1, 2])
     used = set()
-    return ("m", [(gen_key(rng, used), gen_value(rng, depth - 1)) for _ in range(n)])
+    return ("m", [(gen_key(rng, used, anykind=True), gen_value(rng, depth - 1)) for _ in range(n)])
+
+
+def zip_safe(v):
+    """the same value with the integer map keys msgpackzip cannot round-trip (negative, above int64 max) made harmless"""
+    if isinstance(v, list):
+        return [zip_safe(x) for x in v]
+    if isinstance(v, tuple) and v and v[0] == "m":
+        out, used = [], set()
+        for k, x in v[1]:
+            if isinstance(k, int) and not isinstance(k, bool) and (k < 0 or k >= 2 ** 63 - 1):
+                k = abs(k) % (2 ** 62)
+            if vtext(k) in used:
+                continue
+            used.add(vtext(k))
+            out.append((k, zip_safe(x)))
+        return ("m", out)
+    return v
 
 
 def gen_tags(rng):
